@@ -162,6 +162,7 @@ type shown = SNone | SZ | SBytes | SBool | SSym
 let () =
   let cases = Stdlib.Sys.argv.(1) and hout = Stdlib.Sys.argv.(2) and outf = Stdlib.Sys.argv.(3) in
   let cfg = { Outcome.dbg = Stdlib.Sys.argv.(4) = "1"; ovf = Stdlib.Sys.argv.(5) = "1" } in
+  let spec_mode = Array.length Stdlib.Sys.argv > 6 && Stdlib.Sys.argv.(6) = "spec" in
   load_decodes hout;
   let loop_fuel = nat_of_int 200000 in
   let ic = open_in cases and oc = open_out outf in
@@ -232,7 +233,19 @@ let () =
           | None -> output_string oc "r nomachine\n"
           | Some mm ->
             (try
-              let (r, m') = Machine.run_op decode fd_oracle cfg loop_fuel o mm in
+              let (r, m') =
+                (* spec mode: operations that have an abstract specification are answered by it *)
+                match spec_mode, o with
+                | true, Machine.ORegW (bits, r, v) when Stdlib.List.mem r Iced.all_views && int_of_z bits <= 64 ->
+                  let (res, f') = RegFile.spec_rop (RegFile.RW (bits, r, v)) mm.Machine.st.State.regs in
+                  ((match res with Outcome.Ok _ -> Outcome.Ok Machine.VUnit | Outcome.Err e -> Outcome.Err e
+                                 | Outcome.Panic p -> Outcome.Panic p | Outcome.Fuel -> Outcome.Fuel),
+                   { mm with Machine.st = State.set_regs mm.Machine.st f' })
+                | true, Machine.ORegR (bits, r) when Stdlib.List.mem r Iced.all_views && int_of_z bits <= 64 ->
+                  let (res, _) = RegFile.spec_rop (RegFile.RR (bits, r)) mm.Machine.st.State.regs in
+                  ((match res with Outcome.Ok z -> Outcome.Ok (Machine.VZ z) | Outcome.Err e -> Outcome.Err e
+                                 | Outcome.Panic p -> Outcome.Panic p | Outcome.Fuel -> Outcome.Fuel), mm)
+                | _ -> Machine.run_op decode fd_oracle cfg loop_fuel o mm in
               (match o, r with
                | (Machine.ONew _ | Machine.OElf _), Outcome.Ok _ -> m := Some m'
                | (Machine.ONew _ | Machine.OElf _), _ -> ()
